@@ -191,6 +191,9 @@ def yadrenko(ctx, rule="R02.3"):
 
 
 def run(ctx):
+    from .C03 import dimension_attribute
+
+    dimension_attribute(ctx, rule="R02.9")  # validity is claimed for `dim`; a formula written for another dimension attribute is a different (possibly invalid) function for lat-lon models
     from .C14 import no_subclass_caches
 
     no_subclass_caches(ctx, rule="R02.8")  # a normalising constant cached on a model instance outlives the shape parameter it was computed for (shared with C14)
